@@ -185,8 +185,10 @@ func (d *Descriptor) isValidJSONMapEntry() bool {
 	if len(d.Elements) != 2 {
 		return false
 	}
+	// A pointer to a string or a null.String won't do: two different keys can
+	// have the same text
 	key := &d.Elements[0]
-	return key.Type == FieldTypeString
+	return key.Type == FieldTypeString && !key.ExplicitPresence
 }
 
 func (d *Descriptor) readAsSlice(out Outputter, data []byte) (n int, err error) {
